@@ -2,40 +2,40 @@ import SlugModel.Lemmas.Resolve
 /-!
 # Lemmas/FSFrame — what each filesystem operation changes, and which invariants it keeps
 
-`Inv dstP fs` bundles the three filesystem invariants of C01 / C04.  `Step dstP fs fs'` says that
+`UInv dstP fs` bundles the three filesystem invariants of C01 / C04.  `FsStep dstP fs fs'` says that
 `fs'` differs from `fs` only at paths under `dst`, that directories stay directories, that no link
 appears, and that `KeysPhysical` is kept.  Every operation of the model whose path argument *aims*
-into `dst` (clean absolute path with the components of `dst` as a prefix) is a `Step`; `symlink`
-adds one link and keeps `Inv` when the link is good.
+into `dst` (clean absolute path with the components of `dst` as a prefix) is a `FsStep`; `symlink`
+adds one link and keeps `UInv` when the link is good.
 -/
 namespace Slug
 
 def IsDir (o : Option Node) : Prop := ∃ perm mt, o = some (.dir perm mt)
 
-structure Inv (dstP : PPath) (fs : FS) : Prop where
+structure UInv (dstP : PPath) (fs : FS) : Prop where
   real : RealDir fs dstP
   keys : KeysPhysical fs
   good : AllGood fs dstP
 
 /-- nothing outside `dst` changes -/
-def Frame (dstP : PPath) (fs fs' : FS) : Prop := ∀ q, ¬ Under dstP q → fs'.get q = fs.get q
+def FsFrame (dstP : PPath) (fs fs' : FS) : Prop := ∀ q, ¬ Under dstP q → fs'.get q = fs.get q
 
-theorem Frame.refl (dstP : PPath) (fs : FS) : Frame dstP fs fs := fun _ _ => rfl
+theorem FsFrame.refl (dstP : PPath) (fs : FS) : FsFrame dstP fs fs := fun _ _ => rfl
 
-theorem Frame.trans {dstP : PPath} {a b c : FS} (h1 : Frame dstP a b) (h2 : Frame dstP b c) :
-    Frame dstP a c := fun q hq => (h2 q hq).trans (h1 q hq)
+theorem FsFrame.trans {dstP : PPath} {a b c : FS} (h1 : FsFrame dstP a b) (h2 : FsFrame dstP b c) :
+    FsFrame dstP a c := fun q hq => (h2 q hq).trans (h1 q hq)
 
-structure Step (dstP : PPath) (fs fs' : FS) : Prop where
-  frame : Frame dstP fs fs'
+structure FsStep (dstP : PPath) (fs fs' : FS) : Prop where
+  frame : FsFrame dstP fs fs'
   dirs : ∀ q, IsDir (fs.get q) → IsDir (fs'.get q)
   links : ∀ q t, fs'.get q = some (.link t) → fs.get q = some (.link t)
   keys : KeysPhysical fs → KeysPhysical fs'
 
-theorem Step.refl (dstP : PPath) (fs : FS) : Step dstP fs fs :=
-  ⟨Frame.refl _ _, fun _ h => h, fun _ _ h => h, fun h => h⟩
+theorem FsStep.refl (dstP : PPath) (fs : FS) : FsStep dstP fs fs :=
+  ⟨FsFrame.refl _ _, fun _ h => h, fun _ _ h => h, fun h => h⟩
 
-theorem Step.trans {dstP : PPath} {a b c : FS} (h1 : Step dstP a b) (h2 : Step dstP b c) :
-    Step dstP a c :=
+theorem FsStep.trans {dstP : PPath} {a b c : FS} (h1 : FsStep dstP a b) (h2 : FsStep dstP b c) :
+    FsStep dstP a c :=
   ⟨h1.frame.trans h2.frame, fun q h => h2.dirs q (h1.dirs q h),
    fun q t h => h1.links q t (h2.links q t h), fun h => h2.keys (h1.keys h)⟩
 
@@ -46,10 +46,10 @@ theorem isDir_lookup_of_get {fs fs' : FS} (h : ∀ q, IsDir (fs.get q) → IsDir
   · simp [hq]
   · simp only [hq, if_false]; exact h q
 
-theorem Step.lookup_dirs {dstP : PPath} {fs fs' : FS} (h : Step dstP fs fs') (q : PPath) :
+theorem FsStep.lookup_dirs {dstP : PPath} {fs fs' : FS} (h : FsStep dstP fs fs') (q : PPath) :
     IsDir (fs.lookup q) → IsDir (fs'.lookup q) := isDir_lookup_of_get h.dirs q
 
-theorem Inv.step {dstP : PPath} {fs fs' : FS} (hi : Inv dstP fs) (hs : Step dstP fs fs') : Inv dstP fs' := by
+theorem UInv.step {dstP : PPath} {fs fs' : FS} (hi : UInv dstP fs) (hs : FsStep dstP fs fs') : UInv dstP fs' := by
   refine ⟨?_, hs.keys hi.keys, ?_⟩
   · intro q hq
     exact hs.lookup_dirs q (hi.real q hq)
@@ -65,7 +65,7 @@ def ChangeOK (dstP : PPath) (fs : FS) (q : PPath) (o : Option Node) : Prop :=
     (fs.get q = none → q ≠ [] ∧ IsDir (fs.lookup q.dropLast)))
 
 theorem step_of_pointwise {dstP : PPath} {fs fs' : FS} (h : ∀ q, ChangeOK dstP fs q (fs'.get q)) :
-    Step dstP fs fs' := by
+    FsStep dstP fs fs' := by
   have hdirs : ∀ q, IsDir (fs.get q) → IsDir (fs'.get q) := by
     intro q hd
     rcases h q with e | ⟨_, _, h3, _⟩
@@ -139,7 +139,7 @@ theorem dropLast_ne_self {p : PPath} (h : p ≠ []) : p.dropLast ≠ p := by
   omega
 
 theorem step_touchDir {dstP : PPath} (fs : FS) (d : PPath) (now : Int) (hu : Under dstP d) :
-    Step dstP fs (fs.touchDir d now) := by
+    FsStep dstP fs (fs.touchDir d now) := by
   apply step_of_pointwise
   intro q
   by_cases hq : d = q
@@ -154,7 +154,7 @@ theorem step_touchDir {dstP : PPath} (fs : FS) (d : PPath) (now : Int) (hu : Und
 
 theorem step_set_new {dstP : PPath} (fs : FS) (p : PPath) (n : Node) (hu : Under dstP p) (hp : p ≠ [])
     (hnone : fs.get p = none) (hpar : IsDir (fs.lookup p.dropLast)) (hn : ∀ t, n ≠ .link t) :
-    Step dstP fs (fs.set p n) := by
+    FsStep dstP fs (fs.set p n) := by
   apply step_of_pointwise
   intro q
   by_cases hq : p = q
@@ -170,7 +170,7 @@ theorem step_set_new {dstP : PPath} (fs : FS) (p : PPath) (n : Node) (hu : Under
 
 theorem step_set_dir {dstP : PPath} (fs : FS) (p : PPath) (perm perm' : Nat) (mt mt' : Int)
     (hu : Under dstP p) (hg : fs.get p = some (.dir perm mt)) :
-    Step dstP fs (fs.set p (.dir perm' mt')) := by
+    FsStep dstP fs (fs.set p (.dir perm' mt')) := by
   apply step_of_pointwise
   intro q
   by_cases hq : p = q
@@ -184,7 +184,7 @@ theorem step_set_dir {dstP : PPath} (fs : FS) (p : PPath) (perm perm' : Nat) (mt
 
 theorem step_set_file {dstP : PPath} (fs : FS) (p : PPath) (perm perm' : Nat) (mt mt' : Int) (c c' : Str)
     (hu : Under dstP p) (hg : fs.get p = some (.file perm mt c)) :
-    Step dstP fs (fs.set p (.file perm' mt' c')) := by
+    FsStep dstP fs (fs.set p (.file perm' mt' c')) := by
   apply step_of_pointwise
   intro q
   by_cases hq : p = q
@@ -201,14 +201,14 @@ theorem step_set_file {dstP : PPath} (fs : FS) (p : PPath) (perm perm' : Nat) (m
 theorem step_new_node {dstP : PPath} (fs : FS) (p : PPath) (n : Node) (now : Int) (hd : dstP ≠ [])
     (hreal : RealDir fs dstP) (hu : Under dstP p)
     (hnone : fs.lookup p = none) (hpar : IsDir (fs.lookup p.dropLast)) (hn : ∀ t, n ≠ .link t) :
-    Step dstP fs ((fs.touchDir p.dropLast now).set p n) := by
+    FsStep dstP fs ((fs.touchDir p.dropLast now).set p n) := by
   have hp : p ≠ [] := under_ne_nil hd hu
   have hne : p ≠ dstP := by
     intro e; subst e
     obtain ⟨a, b, h⟩ := hreal p (List.prefix_refl _)
     rw [hnone] at h; cases h
   have hud : Under dstP p.dropLast := under_dropLast hu hne
-  have h1 : Step dstP fs (fs.touchDir p.dropLast now) := step_touchDir fs _ now hud
+  have h1 : FsStep dstP fs (fs.touchDir p.dropLast now) := step_touchDir fs _ now hud
   refine h1.trans (step_set_new _ p n hu hp ?_ (h1.lookup_dirs _ hpar) hn)
   rw [get_touchDir_ne fs _ _ now (dropLast_ne_self hp)]
   rw [← lookup_ne_nil fs p hp]; exact hnone
@@ -218,7 +218,7 @@ theorem step_new_node {dstP : PPath} (fs : FS) (p : PPath) (n : Node) (now : Int
 /-- the path string is made of plain names and starts with the components of `dst` -/
 def Aim (dstP : PPath) (path : Str) : Prop := (∀ x ∈ pathSegs path, Plain x) ∧ dstP <+: pathSegs path
 
-theorem resolvePath_under {dstP : PPath} {fs : FS} (hinv : Inv dstP fs) {path : Str} (ha : Aim dstP path)
+theorem resolvePath_under {dstP : PPath} {fs : FS} (hinv : UInv dstP fs) {path : Str} (ha : Aim dstP path)
     {follow : Bool} {r : PPath} (h : fs.resolvePath path follow = .ok r) : Under dstP r :=
   resolve_under fs dstP hinv.real hinv.good _ _ _ _ _ (heading_start dstP _ ha.1 ha.2) h
 
@@ -234,9 +234,9 @@ theorem stat_ok {fs : FS} {path : Str} {p : PPath} {n : Node} (h : fs.stat path 
       cases h
       exact ⟨hq, hm⟩
 
-theorem step_mkdir {dstP : PPath} {fs fs' : FS} (hd : dstP ≠ []) (hinv : Inv dstP fs) {path : Str}
+theorem step_mkdir {dstP : PPath} {fs fs' : FS} (hd : dstP ≠ []) (hinv : UInv dstP fs) {path : Str}
     (ha : Aim dstP path) {perm : Nat} {now : Int} (h : fs.mkdir path perm now = .ok fs') :
-    Step dstP fs fs' := by
+    FsStep dstP fs fs' := by
   unfold FS.mkdir at h
   split at h
   · cases h
@@ -252,9 +252,9 @@ theorem step_mkdir {dstP : PPath} {fs fs' : FS} (hd : dstP ≠ []) (hinv : Inv d
       · cases h
       · cases h
 
-theorem step_create {dstP : PPath} {fs fs' : FS} (hd : dstP ≠ []) (hinv : Inv dstP fs) {path : Str}
+theorem step_create {dstP : PPath} {fs fs' : FS} (hd : dstP ≠ []) (hinv : UInv dstP fs) {path : Str}
     (ha : Aim dstP path) {content : Str} {now : Int} {priv : Bool}
-    (h : fs.create path content now priv = .ok fs') : Step dstP fs fs' := by
+    (h : fs.create path content now priv = .ok fs') : FsStep dstP fs fs' := by
   unfold FS.create at h
   split at h
   · cases h
@@ -270,7 +270,7 @@ theorem step_create {dstP : PPath} {fs fs' : FS} (hd : dstP ≠ []) (hinv : Inv 
         rw [lookup_ne_nil fs p hpne] at hl
         exact step_set_file fs p _ _ _ _ _ _ hu hl
     · cases h
-    · cases h; exact Step.refl _ _
+    · cases h; exact FsStep.refl _ _
     · rename_i hnone
       split at h
       · rename_i a b hpar
@@ -279,8 +279,8 @@ theorem step_create {dstP : PPath} {fs fs' : FS} (hd : dstP ≠ []) (hinv : Inv 
       · cases h
       · cases h
 
-theorem step_chmod {dstP : PPath} {fs fs' : FS} (hd : dstP ≠ []) (hinv : Inv dstP fs) {path : Str}
-    (ha : Aim dstP path) {perm : Nat} (h : fs.chmod path perm = .ok fs') : Step dstP fs fs' := by
+theorem step_chmod {dstP : PPath} {fs fs' : FS} (hd : dstP ≠ []) (hinv : UInv dstP fs) {path : Str}
+    (ha : Aim dstP path) {perm : Nat} (h : fs.chmod path perm = .ok fs') : FsStep dstP fs fs' := by
   unfold FS.chmod at h
   split at h
   · cases h
@@ -296,10 +296,10 @@ theorem step_chmod {dstP : PPath} {fs fs' : FS} (hd : dstP ≠ []) (hinv : Inv d
     rw [lookup_ne_nil fs p (under_ne_nil hd hu)] at hl
     cases h
     exact step_set_file fs p _ _ _ _ _ _ hu hl
-  · cases h; exact Step.refl _ _
+  · cases h; exact FsStep.refl _ _
 
-theorem step_chtimes {dstP : PPath} {fs fs' : FS} (hd : dstP ≠ []) (hinv : Inv dstP fs) {path : Str}
-    (ha : Aim dstP path) {mtime : Int} (h : fs.chtimes path mtime = .ok fs') : Step dstP fs fs' := by
+theorem step_chtimes {dstP : PPath} {fs fs' : FS} (hd : dstP ≠ []) (hinv : UInv dstP fs) {path : Str}
+    (ha : Aim dstP path) {mtime : Int} (h : fs.chtimes path mtime = .ok fs') : FsStep dstP fs fs' := by
   unfold FS.chtimes at h
   split at h
   · cases h
@@ -315,15 +315,15 @@ theorem step_chtimes {dstP : PPath} {fs fs' : FS} (hd : dstP ≠ []) (hinv : Inv
     rw [lookup_ne_nil fs p (under_ne_nil hd hu)] at hl
     cases h
     exact step_set_file fs p _ _ _ _ _ _ hu hl
-  · cases h; exact Step.refl _ _
+  · cases h; exact FsStep.refl _ _
 
 /-! ## `symlink` -/
 
 /-- binding an unbound name under `dst` to a good link keeps the invariants and the frame -/
-theorem inv_set_link {dstP : PPath} {fs : FS} (hinv : Inv dstP fs) (p : PPath) (t : Str)
+theorem inv_set_link {dstP : PPath} {fs : FS} (hinv : UInv dstP fs) (p : PPath) (t : Str)
     (hu : Under dstP p) (hp : p ≠ []) (hnone : fs.get p = none) (hpar : IsDir (fs.lookup p.dropLast))
     (hg : GoodLink dstP p t) :
-    Inv dstP (fs.set p (.link t)) ∧ Frame dstP fs (fs.set p (.link t)) := by
+    UInv dstP (fs.set p (.link t)) ∧ FsFrame dstP fs (fs.set p (.link t)) := by
   have hdirs : ∀ q, IsDir (fs.get q) → IsDir ((fs.set p (.link t)).get q) := by
     intro q hd
     by_cases hq : p = q
@@ -353,11 +353,11 @@ theorem inv_set_link {dstP : PPath} {fs : FS} (hinv : Inv dstP fs) (p : PPath) (
     · exact get_set_ne fs p q _ hpq
 
 /-- `symlink` whose new link is good (at the place where it is physically created) -/
-theorem inv_symlink {dstP : PPath} {fs fs' : FS} (hd : dstP ≠ []) (hinv : Inv dstP fs) {path target : Str}
+theorem inv_symlink {dstP : PPath} {fs fs' : FS} (hd : dstP ≠ []) (hinv : UInv dstP fs) {path target : Str}
     (ha : Aim dstP path) {now : Int}
     (hgood : ∀ p, fs.resolvePath path false = .ok p → fs.lookup p = none → GoodLink dstP p target)
     (h : fs.symlink target path now = .ok fs') :
-    Inv dstP fs' ∧ Frame dstP fs fs' := by
+    UInv dstP fs' ∧ FsFrame dstP fs fs' := by
   unfold FS.symlink at h
   split at h
   · cases h
@@ -376,7 +376,7 @@ theorem inv_symlink {dstP : PPath} {fs fs' : FS} (hd : dstP ≠ []) (hinv : Inv 
             intro e; subst e
             obtain ⟨a, b, h⟩ := hinv.real p (List.prefix_refl _)
             rw [hnone] at h; cases h
-          have h1 : Step dstP fs (fs.touchDir p.dropLast now) :=
+          have h1 : FsStep dstP fs (fs.touchDir p.dropLast now) :=
             step_touchDir fs _ now (under_dropLast hu hne)
           have hnone' : (fs.touchDir p.dropLast now).get p = none := by
             rw [get_touchDir_ne fs _ _ now (dropLast_ne_self hpne), ← lookup_ne_nil fs p hpne]
